@@ -106,6 +106,9 @@ def gen(rng, n, tier):
         c = dict(algo=algo, mode=rng.choice(["min", "max"]), stop_cycle=k, params=params, vars=vars_, cons=cons,
                  seed=rng.randrange(10 ** 9), policy=L.policy_for(rng, len(vars_)),
                  max_steps=2000 if full else rng.randint(1, 60), full=1 if full else 0)
+        if rng.random() < 0.15:
+            c["pauses"] = 1              # startlate schedule with pause / resume (L.run_with_pauses)
+            c["policy"] = "startlate+pauses"
         cases.append(c)
     return cases
 
